@@ -66,9 +66,15 @@ Definition deps_item (it : ritem) (s : dstate) : option dstate :=
   | ItEnum (EAlgebraic _ _ sh) =>
     let name := original (eid sh) in
     let '(fresh, s1) := seen_insert name s in
+    (* for variant in variants: Unit => {}, AnonymousStruct => each field.ty in order, Tuple => ty
+       (the enum's own name is put into `seen` only, never into `res`) *)
     if fresh then
-      obind (deps_fields (flat_map (fun v => match v with VTuple t _ => [t] | _ => [] end) (evariants sh))
-                         (res_push name s1))
+      obind (deps_fields (flat_map (fun v => match v with
+                                             | VUnit _ => []
+                                             | VAnon fs _ => map fty fs
+                                             | VTuple t _ => [t]
+                                             end) (evariants sh))
+                         s1)
             (fun s2 => Some (seen_remove name s2))
     else Some s
   | ItStruct st =>
